@@ -16,6 +16,11 @@ func main() {
 	if len(os.Args) > 1 && os.Args[1] == "thorough" {
 		iters = 200
 	}
+	// phase 1: types nobody has used yet, first used by all goroutines at once
+	if bad := coldFirstUse(16); len(bad) > 0 {
+		fmt.Println("RACEPASS mismatch:", bad[0], "(", len(bad), "in total )")
+		os.Exit(1)
+	}
 	alpha := calls.Alphabet()
 	base := make([]string, len(alpha))
 	for i, c := range alpha {
@@ -59,5 +64,5 @@ func main() {
 		fmt.Println("RACEPASS mismatch:", bad[0], "(", len(bad), "in total )")
 		os.Exit(1)
 	}
-	fmt.Printf("RACEPASS ok: 16 goroutines x %d iterations x %d calls\n", iters, len(alpha))
+	fmt.Printf("RACEPASS ok: %d fresh types first used by 16 goroutines at once; 16 goroutines x %d iterations x %d calls\n", len(coldUses()), iters, len(alpha))
 }
